@@ -111,10 +111,10 @@ uint8_t vfr_is_frac(fr_m *r, uint64_t n_lo, uint64_t d_lo) {
   return v.n * gz_zx64(d_lo) == gz_sx64(n_lo) * v.d;
 }
 /* sign / compare oracles on snapshots */
-uint32_t vfr_cmp(uint8_t sa, uint8_t sb) {
+uint8_t vfr_cmp(uint8_t sa, uint8_t sb) {      /* 0: equal, 1: a > b, 2: a < b */
   fr_val_t a = fr_slot[sa % FR_SLOTS], b = fr_slot[sb % FR_SLOTS];
   gz2_t l = a.n * b.d, r = b.n * a.d;
-  return (uint32_t)((l < r ? -1 : (l > r ? 1 : 0)) & (int)FR_WMASK);
+  return l < r ? 2 : (l > r ? 1 : 0);
 }
 uint8_t vfr_slot_is_integer(uint8_t s) { return fr_slot[s % FR_SLOTS].d == 1; }
 uint8_t vfr_slot_is_zero(uint8_t s) { return fr_slot[s % FR_SLOTS].n == 0; }
